@@ -806,6 +806,71 @@ def self_aliases_inlined(node):
     return new
 
 
+def self_aliases_inlined_deep(node, back_to_names=()):
+    """like self_aliases_inlined, but the single assignment `v = self.<attr>` may sit in any block of the function as long as every read of `v` comes in (or below) a later
+    statement of that same block.  With `back_to_names` the attributes listed there are afterwards written as plain names (`self.inlet_pa` -> `inlet_pa`) wherever the function
+    has no local of that name left, so that a rule sees one spelling whether the code reads the attribute directly, through a local of the same name or through a renamed one"""
+    from . import norm as N_
+    new = N_.clone(node)
+    set_parents(new)
+    for fn in [f for f in ast.walk(new) if isinstance(f, ast.FunctionDef)]:
+        stores = {}
+        attr_stores = set()
+        for x in ast.walk(fn):
+            if isinstance(x, ast.Name) and isinstance(x.ctx, (ast.Store, ast.Del)):
+                stores[x.id] = stores.get(x.id, 0) + 1
+            if isinstance(x, ast.Attribute) and isinstance(x.ctx, (ast.Store, ast.Del)) and isinstance(x.value, ast.Name) and x.value.id == 'self':
+                attr_stores.add(x.attr)
+        params = set(a.arg for a in fn.args.args + fn.args.kwonlyargs)
+        good = {}
+        for st in list(ast.walk(fn)):
+            if not (isinstance(st, ast.Assign) and len(st.targets) == 1 and isinstance(st.targets[0], ast.Name)):
+                continue
+            v, nm = st.value, st.targets[0].id
+            if not (isinstance(v, ast.Attribute) and isinstance(v.value, ast.Name) and v.value.id == 'self'):
+                continue
+            if stores.get(nm, 0) != 1 or nm in params or v.attr in attr_stores:
+                continue
+            par = getattr(st, 'parent', None)
+            blk = None
+            for f_ in ('body', 'orelse', 'finalbody'):
+                b_ = getattr(par, f_, None)
+                if isinstance(b_, list) and any(x is st for x in b_):
+                    blk = b_
+            if blk is None:
+                continue
+            i = [k for k, x in enumerate(blk) if x is st][0]
+            allowed = set()
+            for later in blk[i + 1:]:
+                for x in ast.walk(later):
+                    allowed.add(id(x))
+            loads = [x for x in ast.walk(fn) if isinstance(x, ast.Name) and x.id == nm and isinstance(x.ctx, ast.Load)]
+            if all(id(x) in allowed for x in loads):
+                good[nm] = (v.attr, st, blk)
+        if good:
+            class R(ast.NodeTransformer):
+                def visit_Name(self, n):
+                    if isinstance(n.ctx, ast.Load) and n.id in good:
+                        return ast.copy_location(ast.Attribute(value=ast.Name(id='self', ctx=ast.Load()), attr=good[n.id][0], ctx=ast.Load()), n)
+                    return n
+            for nm, (attr, st, blk) in good.items():
+                blk[:] = [x for x in blk if x is not st] or [ast.copy_location(ast.Pass(), st)]
+            R().visit(fn)
+        if back_to_names:
+            left = set(x.id for x in ast.walk(fn) if isinstance(x, ast.Name) and isinstance(x.ctx, (ast.Store, ast.Del))) | set(a.arg for a in fn.args.args + fn.args.kwonlyargs)
+
+            class B(ast.NodeTransformer):
+                def visit_Attribute(self, n):
+                    self.generic_visit(n)
+                    if isinstance(n.ctx, ast.Load) and isinstance(n.value, ast.Name) and n.value.id == 'self' and n.attr in back_to_names and n.attr not in left and n.attr not in attr_stores:
+                        return ast.copy_location(ast.Name(id=n.attr, ctx=ast.Load()), n)
+                    return n
+            B().visit(fn)
+        ast.fix_missing_locations(fn)
+    set_parents(new)
+    return new
+
+
 def data_aliases_inlined(fn):
     """a copy of `fn` in which a local assigned exactly once, at the top level of the function, from `<name>.data` (the raw buffer of a carray held in another local that is
     itself assigned at most once before) is replaced by that expression: `p = arr.data; p[i] = v` is `arr.data[i] = v`"""
